@@ -129,6 +129,8 @@ func (s *Sel) triggerFns() (onEnd, onSkip []*ssa.Function) {
 func runC04(c *Ctx) {
 	p := c.P
 	s := p.Selectors()
+	s.checkExitCodeProvenance(c, "exitcode-provenance")
+	s.checkDaemonRelease(c, "daemon-released-after-configured-stop")
 	shut := s.shutdownFn()
 
 	s.checkRunJoins(c, "run-joins")
@@ -170,6 +172,31 @@ func runC04(c *Ctx) {
 		r := MustPrecede(t, s.deepWithOnce(storeSite), func(in ssa.Instruction) bool { return isOneOf(in, shutCalls) }, nil)
 		_ = dStore
 		c.PathCheck(r, rExit, "store-before-shutdown:"+p.FuncKey(t), FirstPos(p, t), "the exit code is recorded before the shutdown is started", "the trigger calls the shutdown function before recording its exit code: processes killed by that shutdown run their own trigger first and their code wins")
+	}
+	// what a process goroutine hands to the completion trigger when no command was launched
+	{
+		rNo := c.Rule("no-launch-result-is-constant", "every return of the run entry that is reachable without passing the launch returns a constant (0 for a process stopped before it started, non-zero for one that cannot be started): the value goes to the exit_on_failure / exit_on_end trigger and must not be a code some other goroutine stored into the state record")
+		launchD := p.Deep(s.LaunchSite)
+		for _, re := range s.RunEntries {
+			c.Touch(re)
+			barrier := func(in ssa.Instruction) bool {
+				cc, ok := in.(*ssa.Call)
+				return ok && launchD.MayAt(cc)
+			}
+			n := 0
+			for in := range Reach(Entry(re), barrier, nil) {
+				ret, ok := in.(*ssa.Return)
+				if !ok || len(ret.Results) != 1 {
+					continue
+				}
+				n++
+				_, isK := ConstInt(RetVals(ret)[0])
+				c.Check(isK, rNo, fmt.Sprintf("%s:return-before-launch", p.FuncKey(re)), p.InstrPos(ret), "constant result", "a return of the run entry that is reached without launching the command returns the recorded exit code instead of a constant: a process that was merely stopped before it started (for instance by the project shutdown) can carry a code written by a waiting dependent and makes Run() report a failure")
+			}
+			if n == 0 {
+				c.OK(rNo, p.FuncKey(re)+":none", FirstPos(p, re), "no return before the launch")
+			}
+		}
 	}
 	// Run returns ExitError exactly when exitCode != 0
 	rRet := c.Rule("run-returns-exitcode", "the joining function returns &ExitError{exitCode} on the exitCode != 0 edge and the earlier error value otherwise")
@@ -403,7 +430,7 @@ func (s *Sel) checkBinaryExitMapping(c *Ctx) {
 					if !isRet {
 						continue
 					}
-					rv := ret.Results[len(ret.Results)-1]
+					rv := RetVals(ret)[len(ret.Results)-1]
 					if isErr(rv) {
 						continue
 					}
